@@ -26,7 +26,13 @@ def run(ctx, L, tier):
     cursor_passing(ctx.cxx, L)
     exactness(ctx.cxx, L)
     generated_decode(ctx, L)
-    return rules
+    from . import shared_model as M
+    from . import shared_cxx as X
+    M.size_formulas(ctx, L)          # the generated decoders advance by the model's sizes and paddings
+    M.dynamic_predicates(ctx, L)
+    X.optional_codec_cxx(ctx, L)
+    X.no_virtual_in_message(ctx, L)
+    return sorted(set(rules) | set(o.rule for o in L.obligations))
 
 
 def decoder_guards(ctx, L):
